@@ -110,7 +110,8 @@ pub enum Ev {
     AckRange { space: Space, lo: u64, hi: u64, path: u64 },
     Metrics { path: u64, min_rtt_us: u64, srtt_us: u64, latest_rtt_us: u64, rttvar_us: u64, max_ack_delay_us: u64, pto_count: u32, cwnd: u32, bytes_in_flight: u32, congestion_limited: bool },
     Params(PeerParams),
-    KeyUpdate { space: Space, generation: u16 },
+    KeyUpdate { space: Space, generation: u16, /// 0 = AES-128-GCM, 1 = AES-256-GCM, 2 = ChaCha20-Poly1305, 9 = other
+        suite: u8 },
     SpaceDiscarded(Space),
     HandshakeComplete,
     HandshakeConfirmed,
@@ -378,7 +379,13 @@ impl event::Subscriber for Recorder {
             events::KeyType::OneRtt { generation, .. } => (Space::App, generation),
             _ => return,
         };
-        self.trace.lock().unwrap().push(self.ep, ctx.id, Ev::KeyUpdate { space, generation });
+        let suite = match event.cipher_suite {
+            events::CipherSuite::TLS_AES_128_GCM_SHA256 { .. } => 0,
+            events::CipherSuite::TLS_AES_256_GCM_SHA384 { .. } => 1,
+            events::CipherSuite::TLS_CHACHA20_POLY1305_SHA256 { .. } => 2,
+            _ => 9,
+        };
+        self.trace.lock().unwrap().push(self.ep, ctx.id, Ev::KeyUpdate { space, generation, suite });
     }
 
     fn on_key_space_discarded(&mut self, ctx: &mut ConnCtx, _meta: &events::ConnectionMeta, event: &events::KeySpaceDiscarded) {
